@@ -54,7 +54,7 @@ func C02(r *core.Run) {
 		"(R02.2) every Backend/VersionedBackend method of every implementation can return the error code its contract mandates (NoSuchBucket, NoSuchKey, BucketAlreadyExists, BucketNotEmpty, NoSuchVersion); " +
 		"(R02.3) no delete operation can return NoSuchKey (idempotence); (R02.4) every ErrorCode used has an explicit HTTP status and the five codes of the property map to 404/409, every handler error reaches httpError, ensureErrorResponse is total; " +
 		"(R02.5) CopyObject wires source to destination with the fetched object's contents, size and hash; (R02.6) bucket removal happens only on the non-empty-test's empty arm; " +
-		"(R01.2, shared) every PutObject replaces the stored bytes by one consumption of the input (fs: truncating open of the object path); (R10.7, shared) object deletion is never recursive."
+		"(R01.2, shared) every PutObject replaces the stored bytes by one consumption of the input (fs: truncating open of the object path); (R10.7, shared) object deletion is never recursive; (R02.7) deleting a nested key on the fs backends prunes the directories it leaves empty, so an emptied bucket can be deleted."
 	r.NotDecided = "read-your-writes, overwrite/copy value semantics, agreement of whole responses with a reference model, auto-bucket behaviour"
 	rule021(r)
 	rule022(r)
@@ -66,6 +66,7 @@ func C02(r *core.Run) {
 	// write" and "a delete affects only the addressed key"
 	rule012(r)
 	rule107(r)
+	rule027(r)
 }
 
 // handler exceptions for R02.1, one reason each
@@ -485,4 +486,84 @@ func rule026(r *core.Run) {
 		}
 	}
 	r.Floor("R02.6", 3, "DeleteBucket removers")
+}
+
+// rule027 — deleting a nested key on the fs backends prunes the directories it
+// leaves empty (shared with C03: leftovers of deleted keys never appear).
+func rule027(r *core.Run) {
+	r.Rule("R02.7", "in each fs backend the object-delete path, after removing the object file, removes parent directories of the object path that an emptiness test (ReadDir, len == 0) found empty, up to the bucket root, and checks the error")
+	for _, impl := range []string{"s3afero.(*MultiBucketBackend)", "s3afero.(*SingleBucketBackend)"} {
+		fn := mustFunc(r, impl+".deleteObjectLocked")
+		if fn == nil {
+			continue
+		}
+		name := fname(r, fn)
+		var objRemove ssa.CallInstruction
+		for _, c := range r.P.CallsIn(fn, false, core.NameIs("invoke:github.com/spf13/afero.Fs.Remove")) {
+			objRemove = c
+		}
+		if objRemove == nil {
+			r.Violated("R02.7", key(name, "object remove"), r.P.Pos(fn.Pos()), "deleteObjectLocked no longer removes the object file with Fs.Remove")
+			continue
+		}
+		// a pruning site: Fs.Remove of a path derived from path.Dir(...) of the key, under an emptiness fact
+		reach := reachableFrom(r, []*ssa.Function{fn})
+		pruned := false
+		var pruneFn *ssa.Function
+		for f := range reach {
+			for _, c := range r.P.CallsIn(f, false, core.NameIs("invoke:github.com/spf13/afero.Fs.Remove", "invoke:github.com/spf13/afero.Fs.RemoveAll")) {
+				if c == objRemove {
+					continue
+				}
+				ps := r.P.SliceOf(c.Common().Args[0], core.SliceOpts{Depth: -1})
+				if !ps.Has("call:path.Dir") && !ps.Has("call:path/filepath.Dir") {
+					continue
+				}
+				if strings.HasSuffix(r.P.CalleeName(c), "RemoveAll") {
+					continue // recursive removal of a parent would delete sibling keys
+				}
+				// emptiness guard: a fact on len(ReadDir result) at the call
+				for _, g := range core.GuardsOf(c.(ssa.Instruction)) {
+					gs := r.P.SliceOf(g.If.Cond, core.SliceOpts{Depth: -1})
+					if gs.Has("call:builtin:len") && (gs.Has("call:github.com/spf13/afero.ReadDir") || gs.Has("call:invoke:github.com/spf13/afero.File.Readdir") || gs.Has("call:invoke:github.com/spf13/afero.File.Readdirnames")) {
+						cd := core.CondOf(g.If.Cond)
+						truth := g.Branch
+						if cd.Neg {
+							truth = !truth
+						}
+						k, isK := core.ConstInt(cd.Y)
+						emptyArm := isK && k == 0 && ((cd.Op == token.GTR && !truth) || (cd.Op == token.EQL && truth) || (cd.Op == token.NEQ && !truth) || (cd.Op == token.LEQ && truth))
+						if emptyArm {
+							pruned = true
+							pruneFn = f
+						}
+					}
+				}
+			}
+		}
+		r.Check(pruned, "R02.7", key(name, "prunes empty parent directories"), pos(r, objRemove.(ssa.Instruction)),
+			"parent directories found empty are removed after the object", "deleting a nested key leaves its now-empty parent directories behind: they keep appearing as common prefixes and make DeleteBucket answer BucketNotEmpty for a bucket whose objects were all deleted")
+		if pruned && pruneFn != fn {
+			// the helper is called after the object removal, with the object's path, and its error is returned
+			okCall := false
+			core.Instrs(fn, func(in ssa.Instruction) {
+				c, ok := in.(*ssa.Call)
+				if !ok || core.StaticCallee(c) != pruneFn {
+					return
+				}
+				as := r.P.SliceOfMany(c.Call.Args, core.SliceOpts{Depth: -1})
+				kp := paramNamed(fn, "objectName")
+				if kp != nil && as.HasValue(kp) && core.Reaches(objRemove.(ssa.Instruction), c) {
+					for ret, ev := range returnedErrors(fn) {
+						if definitelyNil(r, ev) && !core.CheckedBefore(c, ret) {
+							return
+						}
+					}
+					okCall = true
+				}
+			})
+			r.Check(okCall, "R02.7", key(name, "prune called with the object path, error checked"), pos(r, objRemove.(ssa.Instruction)), "pruning follows the removal and its error is returned", "the pruning helper is not called after the object removal with the object's path and a checked error")
+		}
+	}
+	r.Floor("R02.7", 2, "fs delete paths")
 }
